@@ -108,6 +108,74 @@ type PipeSpec struct {
 	Values   []Value      `json:"values,omitempty"`
 	Schedule []int        `json:"schedule,omitempty"` // release order of held replies (index modulo the number currently held)
 	GapUs    int          `json:"gap_us,omitempty"`   // pause after each release
+
+	// cluster-side redirection state (C13): the proxy's view is the fixture topology, the truth is this
+	Moved     []SlotNode `json:"moved,omitempty"`     // slot really owned by Node: everybody else answers -MOVED
+	Migrating []Mig      `json:"migrating,omitempty"` // slot being migrated from Src (the owner) to Dst
+	Present   []Bin      `json:"present,omitempty"`   // keys of migrating slots that are still at the source
+	DeadAddr  string     `json:"-"`
+}
+
+// SlotNode says which node really owns a slot.
+type SlotNode struct {
+	Slot int `json:"slot"`
+	Node int `json:"node"` // -1: an address nobody listens on / the proxy does not know
+}
+
+// Mig is a slot under migration.
+type Mig struct {
+	Slot int `json:"slot"`
+	Src  int `json:"src"`
+	Dst  int `json:"dst"`
+}
+
+// redirectLayer wraps a handler with the redirection rules of the cluster specification.
+func redirectLayer(f *Fixture, spec *PipeSpec, next fakecluster.Handler) fakecluster.Handler {
+	if len(spec.Moved) == 0 && len(spec.Migrating) == 0 {
+		return next
+	}
+	moved := map[int]int{}
+	for _, m := range spec.Moved {
+		moved[m.Slot] = m.Node
+	}
+	mig := map[int]Mig{}
+	for _, m := range spec.Migrating {
+		mig[m.Slot] = m
+	}
+	present := map[string]bool{}
+	for _, k := range spec.Present {
+		present[string(k)] = true
+	}
+	addr := func(n int) string {
+		if n < 0 || n >= len(f.Cluster.Nodes) {
+			return spec.DeadAddr
+		}
+		return f.Cluster.Nodes[n].Addr
+	}
+	return func(req *fakecluster.Request) fakecluster.Action {
+		keys := keysOf(req.Name, req.Args)
+		if len(keys) == 0 {
+			return next(req)
+		}
+		slot := refmodel.KeySlot(keys[0])
+		if m, ok := mig[slot]; ok {
+			switch {
+			case req.Node == m.Src:
+				if present[string(keys[0])] {
+					return next(req)
+				}
+				return fakecluster.Action{Reply: []byte(fmt.Sprintf("-ASK %d %s\r\n", slot, addr(m.Dst)))}
+			case req.Node == m.Dst && req.Asking:
+				return next(req)
+			default:
+				return fakecluster.Action{Reply: []byte(fmt.Sprintf("-MOVED %d %s\r\n", slot, addr(m.Src)))}
+			}
+		}
+		if owner, ok := moved[slot]; ok && req.Node != owner {
+			return fakecluster.Action{Reply: []byte(fmt.Sprintf("-MOVED %d %s\r\n", slot, addr(owner)))}
+		}
+		return next(req)
+	}
 }
 
 // ClientResult is what one client observed.
@@ -361,7 +429,7 @@ func runPipesQuiet(f *Fixture, spec *PipeSpec, want []int, deadline, quiet time.
 	pi := indexPlans(spec)
 	gates := &gateSet{}
 	f.Cluster.ResetLog()
-	f.Cluster.SetHandler(pi.handler(gates))
+	f.Cluster.SetHandler(redirectLayer(f, spec, pi.handler(gates)))
 	defer f.Cluster.SetHandler(nil)
 
 	res := &PipeResult{Clients: make([]ClientResult, len(spec.Clients))}
